@@ -4,6 +4,6 @@ open SafeNet.Driver
 
 def main (args : List String) : IO UInt32 := do
   match args with
-  | [] => loop (← IO.getStdin) Distance.step []; return 0
+  | [] => loop (← IO.getStdin) Distance.step ({} : Distance.DSt); return 0
   | ["search"] => (Distance.searchCandidates.forM IO.println); return 0
   | _ => IO.eprintln "usage: drv_distance [search] < ops.txt"; return 2
